@@ -130,6 +130,86 @@ def contents_pool(rng, chunk=16):
     return {i + 1: bytes([i + 1]) + rng.randbytes(max(s - 1, 0)) if s else b'' for i, s in enumerate(sizes)}
 
 
+class PausingStream(io.BytesIO):
+    """delivers half of its bytes, then waits inside read() until released: an upload that is still under way"""
+
+    def __init__(self, data):
+        super().__init__(data)
+        import threading
+        self.half = max(1, len(data) // 2)
+        self.reached, self.release = threading.Event(), threading.Event()
+
+    def read(self, n=-1):
+        if self.tell() >= self.half and not self.release.is_set():
+            self.reached.set()
+            self.release.wait(20)
+        if n is None or n < 0 or n > self.half:
+            n = self.half
+        return super().read(n)
+
+
+def overlap_history(run, spelling, seed):
+    """local adapter: listings, existence checks and downloads issued WHILE a streamed upload of a new name / of a replacement is under
+    way (another thread or process looking at the same directory).  "An upload atomically replaces the object": until the upload
+    call returns the map is the old one - nothing of the unfinished upload may be listed, exist or be downloaded."""
+    import threading
+    rng = random.Random(seed)
+    names = ['data/aa/chunk-1', 'data/aa/chunk-2', 'data/ab/chunk-3', 'snapshots/aa/s-1', 'top']
+    contents = contents_pool(rng)
+    idx = {n: i + 1 for i, n in enumerate(names)}
+    evs = []
+
+    def look(be, tag):
+        out = []
+        for pf in ('', 'data/', 'data/aa/', 'data/aa/chunk', 'data/aa/chunk-2', 'snap', 'to'):
+            got = list(be.list_files(pf))
+            out.append({'k': 'list', 'n': 0, 'c': 0, 'ok': True, 'v': 0, 'names': [idx[g] for g in got if g in idx], 'unknown': len([g for g in got if g not in idx]),
+                        'raw': [g for g in got if g not in idx][:3], 'prefix': codepoints(pf), 'during': tag})
+        for nm in names:
+            out.append({'k': 'exists', 'n': idx[nm], 'c': 0, 'ok': True, 'v': 1 if be.exists(nm) else 0, 'names': [], 'unknown': 0, 'prefix': [], 'during': tag})
+            e = {'k': 'download', 'n': idx[nm], 'c': 0, 'ok': True, 'v': 0, 'names': [], 'unknown': 0, 'prefix': [], 'during': tag}
+            try:
+                d = be.download(nm)
+                e['v'] = next((i for i, b in contents.items() if b == d), -1)
+            except Exception as ex:  # noqa: BLE001
+                e['ok'] = False
+                e['etype'] = type(ex).__name__
+            out.append(e)
+        return out
+
+    with harness.scratch() as d, vclock.virtual():
+        be, old = make_local(spelling, d)
+        try:
+            for nm, c in (('data/aa/chunk-1', 4), ('top', 2)):
+                be.upload(nm, contents[c])
+                evs.append({'k': 'upload', 'n': idx[nm], 'c': c, 'ok': True, 'v': 0, 'names': [], 'unknown': 0, 'prefix': []})
+            # a new name, then a replacement of an existing one, then a new name in a directory that does not exist yet
+            for nm, c in (('data/aa/chunk-2', 5), ('data/aa/chunk-1', 7), ('snapshots/aa/s-1', 8), ('top', 6)):
+                st = PausingStream(contents[c])
+                box = {}
+
+                def up(nm=nm, st=st, c=c, box=box):
+                    try:
+                        be.upload_stream(nm, st, len(contents[c]), 16)
+                    except Exception as ex:  # noqa: BLE001
+                        box['err'] = ex
+                th = threading.Thread(target=up, daemon=True)
+                th.start()
+                if not st.reached.wait(20):
+                    raise tlc.MachineryError('the paused upload never reached its stream')
+                evs.append({'k': 'begin', 'n': idx[nm], 'c': c, 'ok': True, 'v': 0, 'names': [], 'unknown': 0, 'prefix': []})
+                evs.extend(look(be, nm))
+                st.release.set()
+                th.join(30)
+                evs.append({'k': 'upload_stream', 'n': idx[nm], 'c': c, 'ok': 'err' not in box, 'v': 0, 'names': [], 'unknown': 0, 'prefix': []})
+                evs.extend(look(be, ''))
+        finally:
+            if old:
+                os.chdir(old)
+    run.case(('overlap', spelling, seed))
+    return {'kind': 'local:' + spelling, 'seed': seed, 'names': [codepoints(n) for n in names], 'name_strings': names, 'events': evs}
+
+
 LOCAL_SPELLINGS = ['abs', 'rel', './rel', 'rel/', 'rel//sub/../sub', '.']
 
 
@@ -331,6 +411,9 @@ def main(run):
     pgops += [{'k': 'delete', 'n': 'data/03/x'}, {'k': 'list', 'prefix': 'data/'}, {'k': 'delete', 'n': 'data/03/x'}, {'k': 'list', 'prefix': 'data/0'}]
     for kind in ('local:abs', 'local:rel', 's3:2', 's3:3', 's3:1000', 'b2:2', 'b2:3', 'b2:1000'):
         traces.append(one_history(run, kind, 515151, 0, 0, quick, ops_override=pgops, names_override=pgnames))
+    # look at the store WHILE a streamed upload is under way (atomic replacement)
+    for j, sp in enumerate(['abs', 'rel'] if quick else LOCAL_SPELLINGS):
+        traces.append(overlap_history(run, sp, run.seed * 31 + j))
     # L2: TLC behaviours on every adapter kind
     behs, l2names = l2_behaviours(run, quick)
     remap = {'a b': 'a b!', 'a b/x%y': 'a b/x%y', 'x%y/a b': 'x%y/a bc', 'x%y/a b/漢': 'x%y/a b/漢'}
